@@ -37,6 +37,73 @@ from .ops import as_int, zi, is_intlike
 from .explore import Unsupported, PathAbort, PathInfeasible
 
 SeqSeqSort = z3.SeqSort(SeqSort)
+PairSort, mk_pair, (pair_fst, pair_snd) = z3.TupleSort("IntPair", [IntSort, IntSort])
+PairSeqSort = z3.SeqSort(PairSort)
+
+
+def list_kind_of_sort(sort):
+    if sort == SeqSeqSort:
+        return "byteslist"
+    if sort == PairSeqSort:
+        return "pairlist"
+    return "intlist"
+
+
+def elem_to_term(interp, x, kind):
+    """element of a list of the given kind -> z3 term of the element sort"""
+    if kind == "intlist":
+        if not is_intlike(x):
+            raise Unsupported("list of ints expected")
+        return zi(as_int(x))
+    if kind == "byteslist":
+        if not isinstance(x, BytesV):
+            raise Unsupported("list of octet strings expected")
+        return ops.rope_term(x.rope)
+    if kind == "pairlist":
+        if not (isinstance(x, tuple) and len(x) == 2 and all(is_intlike(c) for c in x)):
+            raise Unsupported("list of pairs of ints expected")
+        return mk_pair(zi(as_int(x[0])), zi(as_int(x[1])))
+    raise Unsupported(f"list kind {kind}")
+
+
+def term_to_elem(interp, t, kind):
+    if kind == "intlist":
+        return ops.mk(t)
+    if kind == "byteslist":
+        n = interp.ctx.fresh_int("elen", 0)
+        interp.ctx.assume(z3.Length(t) == n)
+        return BytesV([Blk(t, n, str(t)[:30], True)], "bytes")
+    if kind == "pairlist":
+        return (ops.mk(pair_fst(t)), ops.mk(pair_snd(t)))
+    raise Unsupported(f"list kind {kind}")
+
+
+def list_term(interp, l, kind):
+    """whole list (open or not) as a z3 sequence term"""
+    sort = {"intlist": SeqSort, "byteslist": SeqSeqSort, "pairlist": PairSeqSort}[kind]
+    parts = [] if l.prefix is None else [l.prefix]
+    parts += [z3.Unit(elem_to_term(interp, x, kind)) for x in l._items]
+    if not parts:
+        return z3.Empty(sort)
+    return parts[0] if len(parts) == 1 else z3.Concat(*parts)
+
+
+def open_list_len(interp, l):
+    n = interp.ctx.fresh_int("llen", 0)
+    interp.ctx.assume(z3.Length(l.prefix) == n)
+    return ops.add(ops.mk(n, 0, None, 0), len(l._items))
+
+
+def split_last(interp, l):
+    """open list known to be non-empty -> (init list, last element)"""
+    if l._items:
+        return PyList(l._items[:-1], l.prefix), l._items[-1]
+    kind = list_kind_of_sort(l.prefix.sort())
+    ctx = interp.ctx
+    pre = z3.Const(ctx.fresh_name("init"), l.prefix.sort())
+    e = z3.Const(ctx.fresh_name("last"), l.prefix.sort().basis())
+    ctx.assume(l.prefix == z3.Concat(pre, z3.Unit(e)))
+    return PyList([], prefix=pre), term_to_elem(interp, e, kind)
 
 
 # ------------------------------------------------------------------------------------------------
@@ -95,6 +162,8 @@ def fresh_of(interp, name, td):
         return BytesV([Blk(s, n, str(s), True)], k)
     if k == "byteslist":
         return PyList([], prefix=z3.Const(ctx.fresh_name(name), SeqSeqSort))
+    if k == "pairlist":
+        return PyList([], prefix=z3.Const(ctx.fresh_name(name), PairSeqSort))
     if k == "list" and td.args[1] is None:
         return PyList([], prefix=ctx.fresh_seq(name))
     if k == "chunks":
@@ -262,14 +331,78 @@ def exec_while(interp, node, fr, spec):
 
 
 def exec_for(interp, node, fr, spec, it):
-    raise Unsupported("loop contracts on for-loops")
+    """`for x in L` over an open list L (unknown length) with a loop contract.  Ghost vocabulary for the contract
+    function: parameter `loop_seen` = the elements already processed (an open list, L[:i]); `entry` as for while-loops.
+
+        assert I(seen = [])
+        havoc; pick any split L == seen ++ [x] ++ rest; assume I(seen); body with x
+        assert I(seen ++ [x]), frame            (cut)
+        havoc; assume I(seen = L); continue after the loop            (normal exit: the list is exhausted)
+    `break` leaves the loop with the state at the break; termination is by the finiteness of the list."""
+    from .interp import BreakEx, ContinueEx
+    from . import lib_models
+    if not (isinstance(it, PyList) and it.prefix is not None):
+        raise Unsupported("loop contract on a for-loop that does not iterate over a list of unknown length")
+    if node.orelse:
+        raise Unsupported("for-else with a loop contract")
+    opts, f = spec
+    ctx = interp.ctx
+    hv = opts.get("havoc")
+    pairs = (hv.pairs if isinstance(hv, PyDict) else list(hv.items())) if hv is not None else []
+    names = [k for k, _ in pairs]
+    q = fr.func.qualname.split(":")[-1]
+    tag = f"loop {q}#{opts['ordinal']}"
+    ctx.trusted.add("loop contracts: Floyd/Hoare loop rule with havoc set checked by a frame obligation; module globals are assumed not to be modified by loop bodies")
+    kind = list_kind_of_sort(it.prefix.sort())
+    whole = list_term(interp, it, kind)
+    entry = Instance(interp.object_cls, {k: lib_models.copy_deepcopy(interp, v) for k, v in fr.locals.items()
+                                         if not isinstance(v, (FuncV, ClassV, ModuleV, Builtin, Dummy, BoundMethod))})
+
+    def run(mode, prefix, seen):
+        fr.locals["loop_seen"] = seen
+        try:
+            return run_spec(interp, spec, fr, mode, prefix, entry)
+        finally:
+            fr.locals.pop("loop_seen", None)
+
+    run("assert", tag + "/init", PyList([]))
+    for k, td in pairs:
+        havoc(interp, fr, k, td)
+    # which continuation?  the list is exhausted, or there is a next element
+    done = ctx.fresh_bool("for_done")
+    if ctx.branch(done):
+        run("assume", tag, PyList([], prefix=whole))
+        return
+    sort = it.prefix.sort()
+    seen_t = z3.Const(ctx.fresh_name("seen"), sort)
+    rest_t = z3.Const(ctx.fresh_name("rest"), sort)
+    x_t = z3.Const(ctx.fresh_name("item"), sort.basis())
+    ctx.assume(whole == z3.Concat(seen_t, z3.Unit(x_t), rest_t))
+    seen = PyList([], prefix=seen_t)
+    run("assume", tag, seen)
+    snap = _frame_snapshot(interp, fr, set(names) | {_target_name(node)})
+    interp.assign(node.target, term_to_elem(interp, x_t, kind), fr)
+    try:
+        interp.exec_block(node.body, fr)
+    except BreakEx:
+        return
+    except ContinueEx:
+        pass
+    run("assert", tag + "/preserved", PyList([term_to_elem(interp, x_t, kind)], prefix=seen_t))
+    _frame_check(interp, fr, snap, tag + "/frame")
+    raise PathAbort()
+
+
+def _target_name(node):
+    return node.target.id if isinstance(node.target, ast.Name) else None
 
 
 # ------------------------------------------------------------------------------------------------
 # ghost functions
 # ------------------------------------------------------------------------------------------------
 def _sort_of(kind):
-    return {"int": IntSort, "bool": z3.BoolSort(), "bytes": SeqSort, "intlist": SeqSort, "byteslist": SeqSeqSort}[kind]
+    return {"int": IntSort, "bool": z3.BoolSort(), "bytes": SeqSort, "intlist": SeqSort, "byteslist": SeqSeqSort,
+            "pairlist": PairSeqSort}[kind]
 
 
 def encode(interp, v, kind):
@@ -282,20 +415,12 @@ def encode(interp, v, kind):
         if not isinstance(v, BytesV):
             raise Unsupported("ghost function argument is not an octet string")
         return ops.rope_term(v.rope)
-    if kind == "intlist":
-        items = v._items if isinstance(v, PyList) else list(v)
-        parts = [] if not (isinstance(v, PyList) and v.prefix is not None) else [v.prefix]
-        parts += [z3.Unit(zi(as_int(x))) for x in items]
-        return z3.Concat(*parts) if len(parts) > 1 else (parts[0] if parts else EMPTY_SEQ)
-    if kind == "byteslist":
+    if kind in ("intlist", "byteslist", "pairlist"):
+        if isinstance(v, tuple):
+            v = PyList(list(v))
         if not isinstance(v, PyList):
             raise Unsupported("ghost function value is not a list")
-        parts = [] if v.prefix is None else [v.prefix]
-        for x in v._items:
-            if not isinstance(x, BytesV):
-                raise Unsupported("list of octet strings expected")
-            parts.append(z3.Unit(ops.rope_term(x.rope)))
-        return z3.Concat(*parts) if len(parts) > 1 else (parts[0] if parts else z3.Empty(SeqSeqSort))
+        return list_term(interp, v, kind)
     raise Unsupported(f"ghost sort {kind}")
 
 
@@ -310,7 +435,7 @@ def decode(interp, t, kind):
         return BytesV([Blk(t, n, str(t)[:40], True)], "bytes")
     if kind == "intlist":
         return PyList([], prefix=t)
-    if kind == "byteslist":
+    if kind in ("byteslist", "pairlist"):
         return PyList([], prefix=t)
     raise Unsupported(f"ghost sort {kind}")
 
